@@ -79,7 +79,7 @@ def corrupted_traces():
     from . import engine
 
     core.sut()
-    job = (0, 3, {1: [], 2: [1], 3: [1]}, {1: [], 2: [], 3: [2]}, set(), [("run", 0), ("run", 0)], 0, {1: [], 2: [], 3: []}, set())
+    job = (0, 3, {1: [], 2: [1], 3: [1]}, {1: [], 2: [], 3: [2]}, set(), [("run", 0), ("run", 0)], 0, {1: [], 2: [], 3: []}, set(), set())
     engine._worker_init()
     base = engine.replay_one(job)["trace"]
     variants = []
